@@ -36,6 +36,11 @@ def _observe(ts, kw, sparse):
             o["maxw"] = int(rp.max_white_vertlength())
         o["rr"] = enc.num(rp.recurrence_rate())
         o["sc"] = _scalars(rp, not sparse)
+        summ = rp.rqa_summary(l_min=3, v_min=1)
+        o["summary"] = [enc.num(summ[k]) for k in ("RR", "DET", "L", "LAM")]
+        o["summary_keys"] = sorted(summ)
+        if not sparse:
+            o["rprob"] = [enc.num(rp.recurrence_probability(lag)) for lag in range(min(3, rp.N))]
     except Exception as ex:
         o["exc"] = type(ex).__name__
     return o
